@@ -122,9 +122,13 @@ def f_ntags(tags):
     return len(tags)
 
 
+def f_keys(tags):
+    return ",".join(sorted(tags))
+
+
 FUNCS = {
     f.__name__: f
-    for f in (f_is_a, f_notnone, f_upper, f_len, f_neg, f_pos, f_plus1s, f_ntags)
+    for f in (f_is_a, f_notnone, f_upper, f_len, f_neg, f_pos, f_plus1s, f_ntags, f_keys)
 }
 
 OPS = {"==": _op.eq, "!=": _op.ne, "<": _op.lt, "<=": _op.le, ">": _op.gt, ">=": _op.ge}
